@@ -426,3 +426,44 @@ Definition handle3 (line : str) : str :=
                 end
       end
   end.
+
+(* ---------- C05 support: per build and module, the names of imports_postorder ---------- *)
+Definition imports_of_build (b : bag) (bi : nat) (bname : str) (bin : module) (cli_sel : list dep) (disable : list str)
+  : option (list (str * list str)) :=
+  let d0 := fold_left (fun a x => iset_insert x a) disable (collect_disabled b bi) in
+  match resolve_build b bi bname bin cli_sel d0 with
+  | Ok rst => Some (map (fun m => (m_name m, map m_name (imports_postorder (Resolver.sel rst) (provby rst) m))) (Resolver.sel rst))
+  | _ => None
+  end.
+
+Definition show_imports (l : list (str * list str)) : str :=
+  show_dec (N.of_nat (length l)) ++ flat_map (fun kv => S_ " " ++ hex (fst kv) ++ S_ " " ++ show_list (snd kv)) l.
+
+Definition handle_imports (cmd : str) (ts : list str) : option str :=
+  if str_eqb cmd (S_ "imports") then
+    Some (run (rd_bind rd_ytree (fun t => rd_bind rd_cli (fun c => rd_bind rd_s (fun bn => rd_bind rd_s (fun app =>
+               rd_ret (t, c, bn, app)))))) ts
+              (fun '(t, c, bn, app) =>
+                 show_res (fun x => x)
+                   (rbind (load t (S_ "laze-project.yml")) (fun b =>
+                    rbind (cli_selects c) (fun sel =>
+                    match bag_index b bn with
+                    | None => Err (EOther (S_ "nobuilder"))
+                    | Some bi => match find_binary b bi app with
+                                 | None => Err (EOther (S_ "noapp"))
+                                 | Some bin => match imports_of_build b bi bn bin sel (cl_disable c) with
+                                               | Some l => Ok (S_ "ok " ++ show_imports l)
+                                               | None => Err (EOther (S_ "unresolved")) end
+                                 end
+                    end)))))
+  else None.
+
+Definition handle4 (line : str) : str :=
+  match tokens line with
+  | [] => S_ "badrequest"
+  | cmd :: ts =>
+      match handle_imports cmd ts with
+      | Some r => r
+      | None => handle3 line
+      end
+  end.
